@@ -110,6 +110,11 @@ def classify_count(fx, f, bi, t):
                                 classes.add("ACCUMULATED")
                                 details.append("added to `%s`, loop continues while it is short of the request"
                                                % f.name_of_local.get(acc, "_%d" % acc))
+                                fol = _offset_follows_count(f, t, q.names(t)[1] or q.names(t)[0])
+                                if fol is False:
+                                    classes.add("STUCK-OFFSET")
+                                    details.append("the retry is issued at the same file offset: what is still to be done is "
+                                                   "transferred over what was done already")
                                 cl = _bound_clamped(f, body, acc)
                                 if cl:
                                     # the loop completes only min(request, cap): the caller still sees a short count
@@ -468,6 +473,28 @@ def _bound_clamped(f, body, acc):
     return None
 
 
+# positional primitives / wrappers: index of the file-offset argument (by value; an `&mut` offset that the callee
+# advances itself -- copy_file_range -- is not listed)
+OFFSET_ARG = {PREAD: 2, PWRITE: 2, "libfs::common::read_bytes": 2, "libfs::common::write_bytes": 2,
+              "libfs::linux::copy_file_offset": 3, "libfs::fallback::copy_file_offset": 3,
+              "libfs::common::copy_range_uspace": 3}
+
+
+def _offset_follows_count(f, t, callee):
+    """In a completing loop around a positional call, the offset of the next call depends on the counts of the
+    previous ones (`off + written`): otherwise the retry writes the rest of the data over the part already done."""
+    ai = OFFSET_ARG.get(callee)
+    if ai is None or ai >= len(t["args"]):
+        return None
+    ol = op_local(t["args"][ai])
+    if ol is None:
+        return False if "c" in t["args"][ai] else None
+    flow = Flow(f, table=COUNT_FLOW, through_agg=True, through_bin=True, through_field=True,
+                skip_variants=("Break", "Err", "None"))
+    tn, _p = flow.run([t["dest"]["l"]])
+    return ol in tn
+
+
 FN_CALLS = ("core::ops::function::FnMut::call_mut", "core::ops::function::FnOnce::call_once", "core::ops::function::Fn::call")
 
 
@@ -548,7 +575,7 @@ def run(fx, cfgname="A", reach=None):
         o = q.names(t)[0] or q.names(t)[1]
         n = counters.get((fp, o), 0)
         counters[(fp, o)] = n + 1
-        ok = "DROPPED" not in cls and "ABANDONED" not in cls
+        ok = "DROPPED" not in cls and "ABANDONED" not in cls and "STUCK-OFFSET" not in cls
         if "NO-ZERO-EXIT" in cls:
             zero_obs.append((fp, o, n, t, reach is not None and (fp not in reach and fx.fns[fp].root not in reach)))
             cls = cls - {"NO-ZERO-EXIT"}
